@@ -71,6 +71,7 @@ theorem buildShares_ok (i ds : Nat) : ∀ (l : List Share) (col : Nat),
     quadrant for row index `i`, valid namespaces on original-data shares -/
 structure HonestRow (r : Row) (i k : Nat) : Prop where
   len : r.shares.length = 2 * k
+  kpos : 1 ≤ k
   ok : ∀ j sh, r.shares[j]? = some sh → sh.data.length = SHARE_SIZE ∧
       sh.isParity = !(decide (i < k ∧ j < k)) ∧
       (sh.isParity = false → ∃ n, Lumina.Model.Namespace.fromRaw (sh.data.take NS_SIZE) = .ok n)
